@@ -112,7 +112,9 @@ def init : State := ⟨[], [], 0, [], [], [], Generated.nns_defaultRegisterPrice
 structure Env where
   witnesses : List Hash      -- signers of the transaction (Global scope)
   caller : Hash              -- calling script hash (a contract that forwards the call), `[]` = entry script
-  committee : Bool           -- the committee multisignature account is among the signers
+  cmtK : Nat                 -- a k-of-l multisignature account of the committee keys is among the signers
+                             -- (`cmtK = 0`: none)
+  cmtL : Nat                 -- l = `len(neo.GetCommittee())`
   now : Int                  -- `runtime.GetTime()`, block timestamp in ms
   nameOK : Name → Bool       -- verdict of `safeSplitAndCheck` (scanner modelled in C18)
   ipOK : Bool                -- verdict of `checkIPv4`/`checkIPv6` on this call's data (C18)
@@ -134,6 +136,17 @@ inductive Ret where
 abbrev Halt := State × Ret × List Event
 
 /-! ### shared helpers of the contract -/
+
+/-- the threshold of `checkCommittee`: `l-(l-1)/2` -/
+def committeeThreshold (l : Nat) : Nat := l - (l - 1) / 2
+
+/-- `checkCommittee` passes: `runtime.CheckWitness(contract.CreateMultisigAccount(l-(l-1)/2, committee))`. The
+script hash of a multisignature account depends on its threshold, so the k-of-l account of the committee keys
+carries this witness exactly when k is the threshold (a larger k is a different account). -/
+def committeeWitness (k l : Nat) : Bool := decide (1 ≤ l) && k == committeeThreshold l
+
+/-- the committee witness of the invocation -/
+def Env.committee (env : Env) : Bool := committeeWitness env.cmtK env.cmtL
 
 /-- `runtime.CheckWitness(h)` for a 20-byte `h` -/
 def witness (env : Env) (h : Hash) : Bool :=
